@@ -1,7 +1,29 @@
 (** C19 property theorems (nothing else lives here). *)
 From Coq Require Import List ZArith.
-From Config Require Import PyVal ConfigTypes Gen.ConfigTables ConfigModel ConfigSpec.
+From Config Require Import PyVal ConfigTypes Gen.ConfigTables ConfigModel ConfigSpec ConfigProofs.
 
-Theorem C19_placeholder : True.
-Proof. exact I. Qed.
-Print Assumptions C19_placeholder.
+(** For ALL dictionaries of Python values (None, bool, int, str, list, dict at any depth and position), all
+    listening address lists and every oracle environment whose library functions raise only
+    ValueError / TypeError / AttributeError / KeyError (getaddrinfo also socket.gaierror): Configuration()
+    returns or raises ConfigurationError - no other exception class escapes. *)
+Theorem C19_clean : forall E addrs d, env_ok E ->
+  (exists c, load E addrs d = Ok c) \/ load E addrs d = Raise ConfigurationError.
+Proof. intros E addrs d HE. exact (load_clean E HE addrs d). Qed.
+Print Assumptions C19_clean.
+
+(** What is loaded is the documented reading of the dictionary. *)
+Theorem C19_faithful : forall E addrs d c, load E addrs d = Ok c -> c = spec E d.
+Proof. exact load_faithful. Qed.
+Print Assumptions C19_faithful.
+
+(** Every loaded connection is keyed by (my_addr, peer_addr) and its my_addr is a listening address. *)
+Theorem C19_my_addr : forall E addrs d c, load E addrs d = Ok c ->
+  Forall (fun kv => In (i_my_addr (snd kv)) addrs /\ fst kv = (i_my_addr (snd kv), i_peer_addr (snd kv))) c.
+Proof. exact load_my_addr. Qed.
+Print Assumptions C19_my_addr.
+
+(** The name tables, defaults and rules regenerated from configuration.py are the documented names, IANA
+    numbers, defaults, transform order (NO_ESN last), AH rule. *)
+Theorem C19_tables : tables_statement /\ defaults_statement /\ rules_statement /\ keys_statement.
+Proof. exact (conj tables_ok (conj defaults_ok (conj rules_ok keys_ok))). Qed.
+Print Assumptions C19_tables.
